@@ -34,46 +34,46 @@ type loopInfo struct {
 	idxPhi     *ssa.Phi // range-over-slice index phi (for $i)
 	rng        *RangeState
 	lenVal     ssa.Value // range-over-slice: the precomputed length compared against in the header
-	idxTerm    string // for virtual (Iterate) loops: the $i term
-	ownerKey   string // obligations are named after this function (maps.Iterate loops belong to the caller)
-	ownerFrame *Frame // names in the invariants are resolved in this frame
-	frame      *Frame // frame in which the loop physically lives
+	idxTerm    string    // for virtual (Iterate) loops: the $i term
+	ownerKey   string    // obligations are named after this function (maps.Iterate loops belong to the caller)
+	ownerFrame *Frame    // names in the invariants are resolved in this frame
+	frame      *Frame    // frame in which the loop physically lives
 }
 
 // Frame is the execution of one function body (top-level or inlined).
 type Frame struct {
-	vc      *VC
-	fn      *ssa.Function
-	key     string
-	spec    *spec.FuncSpec
-	props   []string
-	env     map[ssa.Value]Val
-	depth   int
-	defers  []deferred
-	loops   map[*ssa.BasicBlock]*loopInfo
-	back    map[[2]*ssa.BasicBlock]bool
-	in      map[*ssa.BasicBlock][]edgeIn
-	blockCond map[*ssa.BasicBlock]string
-	rets    []retInfo
-	entry   *State
-	top     *Frame // outermost frame (owner of obligations' naming)
-	mutated map[ssa.Value]bool // slice values written through IndexAddr
-	curBlock *ssa.BasicBlock
-	curIdx   int
-	virtOrd  map[token.Pos]int // ordinal of maps.Iterate virtual loops by call position
-	params   []Val
-	parent   *Frame
-	loopOv   *loopOverride
-	lastDef  map[string]localDef
-	curLoopHead *ssa.BasicBlock
-	postMode bool
-	oldMode  bool // names are being resolved inside old(...): parameters mean their entry values
-	nameFrame *Frame
-	lastPartial map[*Cell]map[int]bool
-	inlineInits bool
+	vc            *VC
+	fn            *ssa.Function
+	key           string
+	spec          *spec.FuncSpec
+	props         []string
+	env           map[ssa.Value]Val
+	depth         int
+	defers        []deferred
+	loops         map[*ssa.BasicBlock]*loopInfo
+	back          map[[2]*ssa.BasicBlock]bool
+	in            map[*ssa.BasicBlock][]edgeIn
+	blockCond     map[*ssa.BasicBlock]string
+	rets          []retInfo
+	entry         *State
+	top           *Frame             // outermost frame (owner of obligations' naming)
+	mutated       map[ssa.Value]bool // slice values written through IndexAddr
+	curBlock      *ssa.BasicBlock
+	curIdx        int
+	virtOrd       map[token.Pos]int // ordinal of maps.Iterate virtual loops by call position
+	params        []Val
+	parent        *Frame
+	loopOv        *loopOverride
+	lastDef       map[string]localDef
+	curLoopHead   *ssa.BasicBlock
+	postMode      bool
+	oldMode       bool // names are being resolved inside old(...): parameters mean their entry values
+	nameFrame     *Frame
+	lastPartial   map[*Cell]map[int]bool
+	inlineInits   bool
 	mutatedParams map[*ssa.Parameter]bool
-	curState *State // state at the point of the current loop/call analysis (for pointer-valued cells)
-	activeIter *loopInfo // the maps.Iterate loop whose callback is currently being executed inline (for `visited`)
+	curState      *State    // state at the point of the current loop/call analysis (for pointer-valued cells)
+	activeIter    *loopInfo // the maps.Iterate loop whose callback is currently being executed inline (for `visited`)
 }
 
 type retInfo struct {
@@ -1745,6 +1745,12 @@ func (fr *Frame) execNext(in *ssa.Next, cond string, st *State) Val {
 		vc.declareFun("rune_at", []string{"String", "Int"}, "Int")
 		vc.declareFun("rune_width", []string{"String", "Int"}, "Int")
 		vc.fact(implies(and(cond, ok), fmt.Sprintf("(= %s (rune_width %s %s))", w, r.Str, pos)))
+		// A7 (valid UTF-8): the segment at pos is the encoding of the rune delivered; ASCII is one byte wide
+		vc.declareFun("string_of_rune", []string{"Int"}, "String")
+		vc.Assumed["A7: strings ranged over are valid UTF-8: string(r) of a delivered rune is the segment it was decoded from; a segment is one byte iff its rune is ASCII"] = true
+		vc.fact(implies(and(cond, ok), fmt.Sprintf("(and (= (string_of_rune %s) (str.substr %s %s %s)) (= (= %s 1) (< %s 128)) (>= %s 0))", rn, r.Str, pos, w, w, rn, rn)))
+		// a valid consequence of the string theory that the solvers do not find on their own: prefix ++ segment = longer prefix
+		vc.fact(implies(and(cond, ok), fmt.Sprintf("(= (str.substr %s 0 (+ %s %s)) (str.++ (str.substr %s 0 %s) (str.substr %s %s %s)))", r.Str, pos, w, r.Str, pos, r.Str, pos, w)))
 		st.cells[r.PosCell] = ite(ok, fmt.Sprintf("(+ %s %s)", pos, w), pos)
 		return Val{T: in.Type(), Tuple: []Val{{T: types.Typ[types.Bool], Term: ok}, {T: types.Typ[types.Int], Term: pos}, {T: types.Typ[types.Rune], Term: rn}}}
 	}
